@@ -4,3 +4,4 @@ import Dalek.Props.C11.Avx2
 import Dalek.Props.C11.Ifma
 import Dalek.Props.C11.VecChain
 import Dalek.Props.C11.Fiat
+import Dalek.Props.C05.RefinementFiat
